@@ -59,7 +59,8 @@ Fixpoint drop_nul (l : list Z) : list Z :=
   | [] => []
   | x :: r => if x =? 0 then drop_nul r else l
   end.
-Definition trim_nul (l : list Z) : list Z := rev (drop_nul (rev l)).
+(* rev_append _ [] is the linear-time reversal (List.rev is quadratic when extracted) *)
+Definition trim_nul (l : list Z) : list Z := rev_append (drop_nul (rev_append l [])) [].
 
 (* utf-8 bytes of the code points of a Go string *)
 Definition utf8_enc1 (r0 : Z) : bytes :=
